@@ -296,7 +296,10 @@ pub fn replay(input: &str, output: &str) -> i32 {
                     for (dir, rr, dn) in [(Fwd, ratio, "F"), (Inv, 1.0 / ratio, "I")] {
                         match r.apply(h, dir, PROBE) {
                             Err(p) => r.fail(json!({"suite":"unitconvert","def":def,"what":"panic","msg":p})),
-                            Ok((_, out)) => {
+                            Ok((cnt, out)) => {
+                                if cnt != 1 {
+                                    r.fail(json!({"suite":"unitconvert","def":def,"dir":dn,"what":"count","observed":cnt}));
+                                }
                                 let mut want = PROBE;
                                 if which == 0 { want[0] *= rr; want[1] *= rr; } else { want[2] *= rr; }
                                 let ok = (0..4).all(|i| close(want[i], out[i], 8.0));
